@@ -99,6 +99,15 @@ def corpus():
     cs.append(mk_trend(es, ns, d, [25.0] * 9, 1, "corpus-trend-uniform-weights"))
     cs.append(mk_trend(es, ns, d, wts[0], 0, "corpus-trend-degree0-weights"))
     cs.append(_spline_case("spline", es, ns, [d], wts[:1], None, [[x + 1 / 128 for x in fe9], fn9], 0.5, 0.0))     # as many separate forces as data, weighted
+    # a datum switched off by a vanishing weight (its value is a fill value of any size): the fit is the fit without it
+    for tiny, fill in ((1e-40, 1e15), (1e-20, -1e9), (0.0, 1e12)):
+        dv, wv = list(d), list(wts[0])
+        dv[3], wv[3] = fill, tiny
+        cs.append(mk_trend(es, ns, dv, wv, 2 if tiny else 1, f"corpus-trend-vanishing-weight-{tiny:g}"))
+        cs.append(_spline_case("spline", es, ns, [dv], [wv], 1e-2, [[x + 1 / 128 for x in fe], fn_], 0.5, 0.0))
+        cs.append(_spline_case("spline", es, ns, [dv], [wv], None, [[x + 1 / 128 for x in fe], fn_], 0.5, 1.0))
+    cs.append(_spline_case("vector", es, ns, [[1e15 if k == 2 else v for k, v in enumerate(d)], d[::-1]],
+                           [[1e-40 if k == 2 else v for k, v in enumerate(wts[0])], wts[1]], 1e-2, [[x + 1 / 128 for x in fe], fn_], 0.5, 4.0))
     return cs
 
 
@@ -128,6 +137,10 @@ def generate(rng, tier):
             w = [rng.randint(1, 32) / 8.0 for _ in es] if weighted else None
             if weighted and rng.random() < 0.2:
                 w = [rng.choice([0.01, 25.0])] * len(es)
+            elif weighted and rng.random() < 0.25:
+                k_ = rng.randrange(len(es))
+                w[k_] = rng.choice([0.0, 1e-300, 1e-40, 1e-20, 1e-13])
+                d[k_] = rng.choice([-1.0, 1.0]) * 10.0 ** rng.randint(6, 15)
             cs.append(mk_trend(es, ns, d, w, deg, f"trend-{deg}"))
         else:
             npts = rng.randint(3, 10 if tier == "quick" else 16)
@@ -151,6 +164,12 @@ def generate(rng, tier):
                 w = [[cw for _ in es] for _ in range(ncomp)]
             if damping is None and force is not None and rng.random() < 0.4:
                 damping = 10 ** rng.uniform(-6, 0)       # otherwise: undamped, over-determined (fewer forces than data): weights matter
+            if w is not None and force is not None and len(force[0]) <= npts - 2 and rng.random() < 0.3:
+                # one datum per component switched off by a vanishing weight; its value is a fill value
+                for c_ in range(ncomp):
+                    k_ = rng.randrange(len(es))
+                    w[c_][k_] = rng.choice([0.0, 1e-300, 1e-40, 1e-20, 1e-13])
+                    data[c_][k_] = rng.choice([-1.0, 1.0]) * 10.0 ** rng.randint(6, 15)
             cs.append(_spline_case(kind, es, ns, data, w, damping, force, rng.choice([-1.0, -0.25, 0.0, 0.5, 1.0]),
                                    rng.choice([0.0, 1.0, 4.0]) if kind == "spline" else rng.choice([0.5, 4.0, 16.0])))
     return cs
@@ -174,17 +193,35 @@ def _fit(case):
             J, d, w, damping = a
             p = least_squares(np.array(J), np.array(d), None if w is None else np.array(w), damping=damping, copy_jacobian=True)
             return {"params": [float(v) for v in p]}
+        import zlib
+        hist = zlib.crc32(("refit" + case["op"][:4000]).encode()) % 3      # 0: fresh object; 1: fitted before to other data on the SAME points;
+        #                                                                     2: ... and with other weights (the latest fit must be the optimum)
         if fn == "trend":
             es, ns, d, w, deg, qe, qn = a
-            t = vd.Trend(deg).fit((L(es, "e"), L(ns, "n")), L(d, "d"), None if w is None else L(w, "w"))
+            t = vd.Trend(deg)
+            if hist:
+                t.fit((L(es, "e"), L(ns, "n")), np.array([1.5 * v + 1.0 for v in d[::-1]]).reshape(np.shape(L(d, "d"))),
+                      None if (w is None or hist == 1) else np.array([0.5 + (k % 3) for k in range(len(d))], dtype=float).reshape(np.shape(L(d, "d"))))
+            t.fit((L(es, "e"), L(ns, "n")), L(d, "d"), None if w is None else L(w, "w"))
             return {"params": [float(v) for v in t.coef_], "pred": [float(v) for v in t.predict((np.array(qe), np.array(qn)))]}
         es, ns, data, w, damping, force, poisson, mindist = a
         coords = (L(es, "e"), L(ns, "n"))
         fc = None if force is None else (np.array(force[0]), np.array(force[1]))
+        def other(x, i):
+            return np.array([1.5 * v + 1.0 + i for v in x[::-1]]).reshape(np.shape(L(x, f"d{i}")))
+
+        def otherw(x, i):
+            return np.array([0.5 + ((k + i) % 3) for k in range(len(x))], dtype=float).reshape(np.shape(L(x, f"w{i}")))
         if fn == "spline":
-            g = vd.Spline(mindist=mindist, damping=damping, force_coords=fc).fit(coords, L(data[0], "d"), None if w is None else L(w[0], "w"))
+            g = vd.Spline(mindist=mindist, damping=damping, force_coords=fc)
+            if hist:
+                g.fit(coords, other(data[0], 0), None if (w is None or hist == 1) else otherw(w[0], 0))
+            g.fit(coords, L(data[0], "d"), None if w is None else L(w[0], "w"))
         else:
             g = vd.VectorSpline2D(poisson=poisson, mindist=mindist, damping=damping, force_coords=fc)
+            if hist:
+                g.fit(coords, tuple(other(x, i) for i, x in enumerate(data)),
+                      None if (w is None or hist == 1) else tuple(otherw(x, i) for i, x in enumerate(w)))
             g.fit(coords, tuple(L(x, f"d{i}") for i, x in enumerate(data)),
                   None if w is None else tuple(L(x, f"w{i}") for i, x in enumerate(w)))
         return {"params": [float(v) for v in g.force_]}
@@ -212,6 +249,15 @@ def _system(case):
     return J, d, w, a[4]
 
 
+def _sig(w, d):
+    """Rows that carry weight: a datum whose weight is below 1e-9 of the largest is being switched off (its value may be a fill value of any
+    size), so agreement is judged on the other rows and in THEIR units."""
+    if w is None:
+        return np.ones(len(d), dtype=bool)
+    w = np.asarray(w, dtype=float)
+    return w >= 1e-9 * np.max(w)
+
+
 def compare(case, io, mo):
     if case.get("jacobian_error"):
         return "ok"
@@ -227,8 +273,9 @@ def compare(case, io, mo):
         return f"diff:{len(p_impl)} parameters vs {len(p_model)}"
     J, d, w, alpha = _system(case)
     # compare predictions J p (well conditioned even when p is not) and parameters when the system is well conditioned
-    pi, pm = J @ np.array(p_impl), J @ np.array(p_model)
-    sc = max(1.0, float(np.max(np.abs(d))))
+    sig = _sig(w, d)
+    pi, pm = (J @ np.array(p_impl))[sig], (J @ np.array(p_model))[sig]
+    sc = max(1.0, float(np.max(np.abs(d[sig]))))
     if not (np.max(np.abs(pi - pm)) <= 1e-6 * sc):
         # scikit-learn's LinearRegression solves with lstsq(cond=1e-6)-like singular-value truncation on the column-scaled,
         # weight-scaled Jacobian: beyond ~1e5 the undamped answer legitimately departs from the exact optimum ("whenever that
@@ -269,13 +316,16 @@ def oracle(case, io):
         return None
     # independently assembled and solved problem
     ref = np.linalg.solve(A, J.T @ (ws * d))
-    sc = max(1.0, float(np.max(np.abs(d))))
+    sig = _sig(w, d)
+    sc = max(1.0, float(np.max(np.abs(d[sig]))))
+    Jfull = J
+    J = J[sig]      # (from here on only predictions at the rows that carry weight are compared)
     if not (np.max(np.abs(J @ p - J @ ref)) <= 1e-6 * sc * max(1.0, cond * 1e-9)):
         return (f"fitted parameters are not the weighted, damped least-squares optimum: predictions differ from an independently solved "
                 f"problem by {np.max(np.abs(J @ p - J @ ref))}")
     # objective is not improved by perturbations
     def phi(q):
-        return float(np.sum(ws * (d - J @ q) ** 2) + a * np.sum(s * q * q))
+        return float(np.sum(ws * (d - Jfull @ q) ** 2) + a * np.sum(s * q * q))
     base = phi(p)
     rs = np.random.RandomState(len(p))
     for _ in range(4):
